@@ -56,10 +56,12 @@ pub enum Series {
     S1Owned,
     /// scripted client against the real listener
     S2,
+    /// like S2, but the scripted client sends every post on the data links PRE-SETTLED
+    S2Settled,
     /// real client API against a scripted coordinator-capable server
     S3,
 }
-pub const ALL_SERIES: [Series; 4] = [Series::S1Shared, Series::S1Owned, Series::S2, Series::S3];
+pub const ALL_SERIES: [Series; 5] = [Series::S1Shared, Series::S1Owned, Series::S2, Series::S3, Series::S2Settled];
 
 impl Series {
     pub fn tag(self) -> &'static str {
@@ -67,6 +69,7 @@ impl Series {
             Series::S1Shared => "S1-shared",
             Series::S1Owned => "S1-owned",
             Series::S2 => "S2",
+            Series::S2Settled => "S2-presettled",
             Series::S3 => "S3",
         }
     }
@@ -85,13 +88,13 @@ pub fn ev_name(series: Series, ev: Ev) -> String {
         Ev::X1 => match series {
             Series::S1Shared => "controller.close()".into(),
             Series::S1Owned => "drop(t1)".into(),
-            Series::S2 => "control-link detach(closed=true)".into(),
+            Series::S2 | Series::S2Settled => "control-link detach(closed=true)".into(),
             Series::S3 => "coordinator-rejects-next-discharge".into(),
         },
         Ev::X2 => match series {
             Series::S1Shared => "drop(controller)".into(),
             Series::S1Owned => "drop(t2)".into(),
-            Series::S2 => "control-link detach(closed=false)".into(),
+            Series::S2 | Series::S2Settled => "control-link detach(closed=false)".into(),
             Series::S3 => "drop(t1)".into(),
         },
         Ev::SessionEnd => "session-end".into(),
